@@ -67,7 +67,7 @@ RECURSIVE RGS(_, _)
 MaxOf(s) == IF s = <<>> THEN -1 ELSE LET S == {s[i] : i \in DOMAIN s} IN CHOOSE x \in S : \A y \in S : y <= x
 RGS(n, s) == IF Len(s) = n THEN {s} ELSE UNION {RGS(n, Append(s, b)) : b \in 0 .. MaxOf(s) + 1}
 Blocks(n, r) == {{v \in 0 .. n - 1 : r[v + 1] = b} : b \in {r[i] : i \in DOMAIN r}}
-ConnParts(h, w) == {r \in RGS(h * w, <<>>) : \A B \in Blocks(h * w, r) : Connected(GridGraph(h, w), B)}
+ConnParts(h, w) == {r \in AllRGS(h * w) : \A B \in Blocks(h * w, r) : Connected(GridGraph(h, w), B)}
 CellsOf(B, w, rev) == LET q == SetToSeqOrd({<<v \div w, v % w>> : v \in B}) IN IF rev THEN Reverse(q) ELSE q
 RoomsOf(h, w, r, revRooms, revCells) ==
     LET ids == SetToSeqOrd({<<b, 0>> : b \in {r[i] : i \in DOMAIN r}})
